@@ -72,7 +72,12 @@ def main():
                 meta = {"property": pid, "breaks": m.get("summary", ""), "needs_to_manifest": m.get("needs", ""), "author": "independent sub-agent given only the property text and a scratch worktree"}
                 json.dump(meta, open(f"{d}/meta.json", "w"), indent=1)
     ks = {"import": "123", "import2": "345", "import3": "567", "import4": "789"}.get(mode, "")
-    todo = sorted(os.listdir(SEEDED)) if mode == "rerun" else [f"{p}-{k}" for p in sys.argv[2:] for k in ks if os.path.isdir(f"{SEEDED}/{p}-{k}")]
+    if mode == "only":
+        only = sys.argv[2:]
+        mode = "rerun"
+    else:
+        only = None
+    todo = only if only is not None else sorted(os.listdir(SEEDED)) if mode == "rerun" else [f"{p}-{k}" for p in sys.argv[2:] for k in ks if os.path.isdir(f"{SEEDED}/{p}-{k}")]
     from concurrent.futures import ProcessPoolExecutor
 
     todo = [n for n in todo if os.path.exists(f"{SEEDED}/{n}/patch.diff")]
